@@ -333,7 +333,30 @@ def rule_pool_shape(chk, repo, rid='C10.c'):
     ploops = [l for l in walk_no_nested(ploop) if isinstance(l, ast.For) and R is not None and unparse(l.iter) == R and isinstance(l.target, ast.Name)]
     ok = len(ploops) == 1
     texts = []
-    if ok:
+    # generator form: POOL.update(<helper>(R)) where the (new) generator helper yields, for every element of its parameter, the
+    # peptide text and its I->L image
+    gen_consume = None
+    if not ploops and R is not None:
+        for st in walk_no_nested(ploop):
+            if isinstance(st, ast.Expr) and isinstance(st.value, ast.Call) and call_name(st.value) == 'update' and unparse(st.value.func.value) == POOLN \
+                    and len(st.value.args) == 1 and isinstance(st.value.args[0], ast.Call) and [unparse(a) for a in st.value.args[0].args] == [R]:
+                hn = call_name(st.value.args[0])
+                hs = [g for q_, g in repo.functions.items() if g.node.name == hn and g.module is f.module]
+                if len(hs) == 1:
+                    h = hs[0]
+                    hp = [a.arg for a in h.node.args.args if a.arg != 'self']
+                    hl = [l for l in walk_no_nested(h.node) if isinstance(l, ast.For) and hp and unparse(l.iter) == hp[0] and isinstance(l.target, ast.Name)]
+                    if len(hl) == 1 and len([l for l in ast.walk(h.node) if isinstance(l, (ast.For, ast.While))]) == 1 \
+                            and not any(isinstance(x, (ast.Break, ast.Continue, ast.Return, ast.If)) for x in ast.walk(h.node)):
+                        hv = hl[0].target.id
+                        ys = sorted(ex(y, y.value.value, ('str', 'replace')) for y in hl[0].body if isinstance(y, ast.Expr) and isinstance(y.value, ast.Yield))
+                        texts = ys
+                        if ys == sorted([f'str({hv}.seq)', f"str({hv}.seq).replace('I', 'L')"]) and len([y for y in ast.walk(h.node) if isinstance(y, (ast.Yield, ast.YieldFrom))]) == 2:
+                            gen_consume = st
+                            chk.uses(h)
+    if gen_consume is not None:
+        ok = len([c for c in G.find_calls(f.node, 'add') + G.find_calls(f.node, 'update') if unparse(c.func.value) == POOLN]) == 1
+    elif ok:
         v = ploops[0].target.id
         adds = [st for st in ploops[0].body if isinstance(st, ast.Expr) and isinstance(st.value, ast.Call) and isinstance(st.value.func, ast.Attribute)
                 and st.value.func.attr == 'add' and unparse(st.value.func.value) == POOLN and len(st.value.args) == 1]
@@ -361,7 +384,7 @@ def rule_pool_shape(chk, repo, rid='C10.c'):
             if p.end_kind() in ('back', 'continue'):
                 adv = p.count(lambda n: n.kind == 'stmt' and is_adv(n.ast))
                 trimmed = p.count(lambda n: n.kind == 'stmt' and is_trim(n.ast))
-                digested = p.count(lambda n: n.kind == 'iter' and unparse(n.ast.iter) == R)
+                digested = p.count(lambda n: (n.kind == 'iter' and unparse(n.ast.iter) == R) or (gen_consume is not None and n.kind == 'stmt' and n.ast is gen_consume))
                 if not ((adv == 1 and digested >= 1) or (adv == 0 and trimmed == 1)):
                     ok = False
     elif isinstance(ploop, ast.For):
@@ -383,6 +406,13 @@ def rule_thread(chk, repo, rid='C10.d', quals=('cli.generate_index:generate_inde
         if len(calls) != 1:
             raise AnalysisError(f"anchor={q}: create_unique_peptide_pool call not found")
         c = calls[0]
+        if any(k.arg is None for k in c.keywords) or any(isinstance(a, ast.Starred) for a in c.args):
+            # the arguments are handed over as `**<expression>` that the normal form could not expand to a literal (built by a method /
+            # an object): what each parameter receives is not visible at the call
+            chk.undecided(rid, f"{f.name}: create_unique_peptide_pool(**...)", repo.loc(f, c),
+                          f"the keyword arguments of the pool call are passed as `{unparse(next(k.value for k in c.keywords if k.arg is None)) if any(k.arg is None for k in c.keywords) else '*args'}` (not expandable to a literal)",
+                          key=f"{q}::pool-arg", fn=f.qual)
+            continue
         for p in SIX:
             v = kwarg(c, p)
             if p == 'exception':
